@@ -135,6 +135,7 @@ def step(w, mod, aspects, problem_kinds):
     from gtirb_rewriting import RewritingContext
 
     spec = abstract(w)
+    w.pre_specs = getattr(w, "pre_specs", []) + [spec]
     E, expect = Lg.expected(spec, [mod])
     E.label_roles = label_roles(spec, [mod])
     E.spec = spec
@@ -164,15 +165,29 @@ def explore(spec0, max_depth, res, first, aspects, problem_kinds, name, extra_ch
     a0 = atoms(abstract(w), 0)
     if first >= len(a0):
         return
-    frontier.append((a0[first],))
+    frontier.append(((a0[first],), canon(abstract(w))))
     while frontier:
-        hist = frontier.popleft()
+        hist, want_pre = frontier.popleft()
         w = Lg.build(spec0)
         ok = True
+        diverged = False
         for i, mod in enumerate(hist):
+            if i == len(hist) - 1 and canon(abstract(w)) != want_pre:
+                diverged = True  # the same history led somewhere else than when it was explored
+                break
             diffs, outcome = step(w, mod, aspects, problem_kinds)
             if i < len(hist) - 1 and (diffs or outcome != "ok"):
                 raise RuntimeError("divergence replaying prefix %r: %r" % (hist[: i + 1], diffs))
+        if diverged:
+            from . import scen
+
+            pre = w.pre_specs[-1] if getattr(w, "pre_specs", None) else spec0
+            d = C.D("history-not-reproducible", r_shape=scen.zero_block_role(pre, [hist[-2]] if len(hist) > 1 else []),
+                    r_depth="later-rewrite", step=len(hist) - 2)
+            res.bad({"spec": spec0, "history": list(hist[:-1]), "chain": name, "diverged": True}, [d])
+            res.case((name, hist, "diverged"), outcome="diverged")
+            res.transitions += 1
+            continue
         res.transitions += 1
         res.traces += 1
         if extra_check is not None and outcome == "ok" and not diffs:
@@ -195,13 +210,28 @@ def explore(spec0, max_depth, res, first, aspects, problem_kinds, name, extra_ch
         res.states += 1
         if len(hist) < max_depth:
             for a in atoms(sp, len(hist)):
-                frontier.append(hist + (a,))
+                frontier.append((hist + (a,), k))
         res.sample({"chain": name, "history": list(hist)}, cap=1)
     if len(seen) == 0:
         res.states += 0
 
 
 def replay(case, aspects, problem_kinds, extra_check=None):
+    if case.get("diverged"):
+        # the reported observation was "the same history led to two different modules"
+        from . import scen
+
+        finals = set()
+        pre = None
+        for _ in range(6):
+            w = Lg.build(case["spec"])
+            for mod in case["history"]:
+                step(w, mod, aspects, problem_kinds)
+            finals.add(canon(abstract(w)))
+            pre = w.pre_specs[-1]
+        if len(finals) > 1:
+            return [C.D("history-not-reproducible", r_shape=scen.zero_block_role(pre, [case["history"][-1]]), r_depth="later-rewrite", step=len(case["history"]) - 1)]
+        return []
     w = Lg.build(case["spec"])
     diffs = []
     for mod in case["history"]:
